@@ -127,6 +127,7 @@ class Driver:
                 fh.write(initial)
             self.obj = cls(path, **kw)
             self.file_model = initial
+            self.sync_mtime = os.path.getmtime(path)      # the driver's own record of "file time at the last load/save of the bound path"
         else:
             self.obj = cls.from_string(initial, **kw)
         self.model.load(initial)
@@ -310,12 +311,14 @@ class Driver:
             return
         self.model.load(data)
         self.synced = False
+        self.sync_mtime = None
         self.verify("load_string", (label,))
 
     def after_change(self):
         if self.path and self.autosave:
             self.file_model = None   # equals the export; checked in verify()
             self.synced = True
+            self.sync_mtime = os.path.getmtime(self.path)
         elif self.path:
             self.synced = False
 
@@ -328,7 +331,22 @@ class Driver:
         if disk != self.obj.to_string():
             self.violation("save-differs-from-export", "file written by save() differs from to_string()")
         self.synced = True
+        self.sync_mtime = os.path.getmtime(self.path)
         self.verify("save", ())
+
+    def save_copy(self):
+        """save(<another path>): a copy is written; the object stays bound to, and in step with, its own file"""
+        other = self.path + ".copy"
+        ok, _ = self.call("save-copy", lambda: self.obj.save(other))
+        if not ok:
+            return
+        with open(other, "rb") as fh:
+            disk = fh.read()
+        st = os.stat(other)
+        os.utime(other, (st.st_atime, st.st_mtime + 7))       # (the copy's timestamp is unrelated to the bound file's)
+        if disk != self.obj.to_string():
+            self.violation("save-differs-from-export", "file written by save(<other path>) differs from to_string()")
+        self.verify("save-copy", ())
 
     def external_write(self, data, label, bump):
         """another process rewrites the file; mtime moves forward (forced)"""
@@ -347,14 +365,16 @@ class Driver:
         ok, r = self.call("load_if_changed", lambda: self.obj.load_if_changed())
         if not ok:
             return
-        must_reload = (not before_mtime) or before_mtime != disk_mtime
+        must_reload = (not self.sync_mtime) or self.sync_mtime != disk_mtime
         model_reload = must_reload
+        self.run.count("load_if_changed_calls")
         if r is not model_reload:
             self.violation(f"load_if_changed|expected-{model_reload}", f"load_if_changed returned {r!r}: recorded mtime {before_mtime}, file mtime {disk_mtime}")
             return
         if r:
             self.model.load(disk)
             self.synced = True
+            self.sync_mtime = disk_mtime
         self.verify("load_if_changed", ())
 
     def load(self, other_path=None, other_data=None):
@@ -365,6 +385,7 @@ class Driver:
             if ok:
                 self.model.load(other_data)
                 self.synced = False
+                self.sync_mtime = None
                 # the object now holds another file's content: it is no longer in sync with its own path
                 if self.obj.mtime:
                     self.violation("load-other-path-keeps-mtime", "after load(<other path>) the object still reports the mtime of its own file, so load_if_changed() will not reload it")
@@ -376,6 +397,7 @@ class Driver:
             if ok:
                 self.model.load(disk)
                 self.synced = True
+                self.sync_mtime = os.path.getmtime(self.path)
                 self.verify("load", ())
 
 
@@ -444,13 +466,13 @@ def randoms(run, part, count):
             default_realm = rng.choice(["r", None]) if kind == "htdigest" else None
             drv = Driver(run, kind, encoding=encoding, autosave=autosave, path=path, initial=inits[label], ctx=ctx, default_realm=default_realm, label=label)
             users = ["a", "b", "c", "üser", "u w", b"bytes-user"] if encoding != "latin-1" else ["a", "b", "üser", "Ünï"]
-            realms = ["r", "s", "réalm"]
+            realms = ["r", "s", "réalm", ""]          # (an empty realm is a valid field: user::hash)
             pws = ["p", "q", "pässword", "x y", b"bytes pw"]
             des_p = ctx.handler("des_crypt").hash("p") if ctx else HB
             for step in range(30):
                 if drv.dead:
                     break
-                op = rng.choice(["set_password"] * 4 + ["set_hash"] * 2 + ["delete"] * 3 + ["check"] * 4 + ["save", "load", "load_if_changed", "external", "load_string", "load_other", "delete_realm"])
+                op = rng.choice(["set_password"] * 4 + ["set_hash"] * 2 + ["delete"] * 3 + ["check"] * 4 + ["save", "load", "load_if_changed", "load_if_changed", "external", "load_string", "load_other", "delete_realm", "save_copy"])
                 u = rng.choice(users)
                 if isinstance(u, str) and rng.random() < 0.3:
                     try:
@@ -477,6 +499,10 @@ def randoms(run, part, count):
                     drv.check(u, pw, *ra)
                 elif op == "save":
                     drv.save()
+                elif op == "save_copy":
+                    drv.save_copy()
+                    if not drv.dead and rng.random() < 0.7:
+                        drv.load_if_changed()
                 elif op == "load":
                     drv.load()
                 elif op == "load_if_changed":
